@@ -238,7 +238,7 @@ func l3TrieCase(c *Ctx, tc *TrieCase) {
 	c.Or.Add("nodes", sh.nodes)
 
 	// decoder case on the real fields
-	l3DecoderCase(c, tc.ID+".dec", st)
+	l3DecoderCase(c, tc.ID+".dec", st, tc, b.Spec)
 
 	// reloaded
 	st2, _, err := reload(st, b.Spec)
@@ -249,7 +249,7 @@ func l3TrieCase(c *Ctx, tc *TrieCase) {
 		fmt.Fprintf(cw, "L %s\n", tc.ID)
 		fmt.Fprintf(iw, "C %s+L\nB ok\nWF 1\n", tc.ID)
 		iw.WriteString(l3DumpMsgStr(st2.VerifInner()))
-		l3DecoderCase(c, tc.ID+"+L.dec", st2)
+		l3DecoderCase(c, tc.ID+"+L.dec", st2, tc, b.Spec)
 	}
 
 	// oracle: plain reference
@@ -278,13 +278,30 @@ func l3TrieCase(c *Ctx, tc *TrieCase) {
 	}
 }
 
-func l3DecoderCase(c *Ctx, id string, st *trie.SlimTrie) {
+func l3DecoderCase(c *Ctx, id string, st *trie.SlimTrie, tc *TrieCase, spec *EncSpec) {
 	cw, iw := c.Cases(), c.Impl()
 	fmt.Fprintf(cw, "M %s\n", id)
 	cw.WriteString(l3DumpMsgStr(st.VerifInner()))
 	fmt.Fprintf(cw, "EM\n")
 	fmt.Fprintf(iw, "C %s\n", id)
 	DumpView(iw, st)
+	// GetID / Get recomputed by the model FROM THE REAL MESSAGE FIELDS (Msg.mgetid / Msg.mget,
+	// proved equal to the tree model's answers in MsgProofs.v) against the implementation's own.
+	if tc == nil {
+		return
+	}
+	for _, q := range genQueries(c.R.Fork(), tc.Keys, len(tc.Keys)+24) {
+		fmt.Fprintf(cw, "MQ %s\n", hxs(q))
+		s, p := protect(func() string {
+			v, f := st.Get(q)
+			return fmt.Sprintf("%d %s", st.GetID(q), foundStr(spec, v, f))
+		})
+		if p != "" {
+			s = "PANIC"
+		}
+		fmt.Fprintf(iw, "q %s G %s\n", hxs(q), s)
+		c.Or.Count("message-level GetID/Get queries")
+	}
 }
 
 // ---- function level ---------------------------------------------------------
